@@ -250,3 +250,49 @@ def gen_derive_partial_ord(struct_text):
            "    open spec fn partial_cmp_spec(&self, other: &Self) -> Option<Ordering> {\n        %s\n    }\n}\n"
            % (bounds, name, ", ".join(gen), obeys, cmp_expr(0)))
     return txt
+
+
+def abstract_action_ctor(text):
+    """R8: `let sender = address.into().0;` is dropped and
+    `Action::new(X::new(<closure or future>, REST…))` becomes `mk_X(func, arg, address, REST…)`:
+    the construction of the async event-sending future is not expressible in Verus. The period /
+    key expressions (REST) are copied from the real statement so that they flow into the contract."""
+    n = 0
+    text, k = re.subn(r"\n[ \t]*let sender = address\.into\(\)\.0;", "", text)
+    n += k
+    toks, _ = lex(text)
+    k = _find_tok_seq(toks, ["Action", ":", ":", "new", "("])
+    if k < 0:
+        return text, n
+    o = k + 4
+    c = _close(toks, o)
+    # inner: X :: new ( args )
+    x = toks[o + 1].text
+    if [t.text for t in toks[o + 2:o + 6]] != [":", ":", "new", "("]:
+        return text, n
+    io = o + 5
+    ic = _close(toks, io)
+    # split args at top-level commas
+    args = []
+    d = 0
+    start = toks[io].pos + 1
+    j = io + 1
+    while j < ic:
+        t = toks[j].text
+        if t in "([{":
+            d += 1
+        elif t in ")]}":
+            d -= 1
+        elif t == "|" and d == 0:
+            pass
+        elif t == "," and d == 0:
+            args.append(text[start:toks[j].pos].strip())
+            start = toks[j].pos + 1
+        j += 1
+    last = text[start:toks[ic].pos].strip()
+    if last:
+        args.append(last)
+    rest = args[1:]
+    repl = "mk_%s(%s)" % (x, ", ".join(["func", "arg", "address"] + rest))
+    text = text[:toks[k].pos] + repl + text[toks[c].pos + 1:]
+    return text, n + 1
